@@ -4,7 +4,7 @@
     elapsed time after [k] rounds of the history (see [C04_elapsed_def]),
     [counted_after] the number of recorded samples that count against
     [sample_count], [continue_after] the documented rule. *)
-From DivanV Require Import Base.Res Generated.Consts Model.Timestamp Model.Loop Proofs.Loop Proofs.LoopProps Proofs.LoopTotal Proofs.LoopSb.
+From DivanV Require Import Base.Res Generated.Consts Model.Timestamp Model.Loop Proofs.Loop Proofs.LoopProps Proofs.LoopTotal Proofs.LoopSb Proofs.LoopExamples.
 Local Open Scope N_scope.
 
 (** Obligations on the generated constants: `elapsed >= max` stops, `elapsed <
@@ -90,3 +90,24 @@ Theorem C04_loop_total : forall c init hist,
   exists out, bench_loop c init hist = Ok out.
 Proof. exact loop_total. Qed.
 Print Assumptions C04_loop_total.
+
+(** Non-vacuity: a run cut by max_time although samples are missing and
+    min_time is not reached; the 1 ns floor under skip_ext_time; a history
+    meeting the hypotheses of [C04_loop_total]. *)
+Theorem C04_max_priority_example :
+  c_test ex_max_cfg = false /\ has_samples ex_max_cfg = true /\
+  c_max ex_max_cfg <= elapsed_after ex_max_cfg 0 ex_hist 2 /\
+  elapsed_after ex_max_cfg 0 ex_hist 2 < c_min ex_max_cfg /\
+  counted_after ex_max_cfg ex_hist 2 < sample_count_of ex_max_cfg /\
+  exists out, bench_loop ex_max_cfg 0 ex_hist = Ok out /\ rounds_of (out_state out) = 2%nat /\ out_done out = true.
+Proof. exact max_priority_example. Qed.
+
+Theorem C04_skip_floor_example :
+  elapsed_after ex_skip_cfg 0 ex_hist 3 = 3000 /\
+  exists out, bench_loop ex_skip_cfg 0 ex_hist = Ok out /\ rounds_of (out_state out) = 3%nat /\ out_done out = true.
+Proof. exact skip_floor_example. Qed.
+
+Theorem C04_loop_total_example :
+  c_test ex_tune_cfg = false /\ c_freq ex_tune_cfg <> 0 /\ (0 < 2 ^ 64) /\
+  (forall o, In o ex_tune_hist -> wf_round o) /\ c_prec ex_tune_cfg <> 0 /\ (length ex_tune_hist <= 31)%nat.
+Proof. exact loop_total_example. Qed.
